@@ -254,6 +254,10 @@ func TestC20(t *testing.T) {
 		hostSetFor(cfg, wire, "kv", "p1", "p2")
 		pcfg := pluginCfgFor(wire)
 		pcfg["names"] = []string{"kv", "p1", "p2"}
+		if p.AutoMTLS {
+			cfg.AutoMTLS = true
+			pcfg["earlyStderrMs"] = 400
+		}
 		l := prepare(c.ID, "", pcfg, cfg, "cmd")
 		defer l.hardKill()
 		var started atomic.Bool
